@@ -78,8 +78,10 @@ def run_kani_units(pid, names, tier, log):
                      functions=h["fn"].split(",") if h["fn"] else [], bounded=h["bounded"],
                      time_s=r["time"], cbmc_checks=r["checks"], cbmc_unreachable=r["unreachable"],
                      covers="%d/%d" % (r["covers_sat"], r["covers_total"]),
-                     obligations=[dict(o) for o in h["obligations"]], failed=[], status="ok",
-                     nofloat=nofloat, meta=h)
+                     obligations=[dict(o) for o in h["obligations"]] + [dict(
+                         id="%s.%s.panic_free" % (h["prop"], h["name"]),
+                         text="no reachable panic, arithmetic-overflow check, out-of-bounds or invalid memory access in the code exercised (all CBMC built-in checks)")],
+                     failed=[], status="ok", nofloat=nofloat, meta=h)
             if r["status"] == "success":
                 if r["covers_total"] and r["covers_sat"] != r["covers_total"]:
                     u["status"] = "undecided"
@@ -94,7 +96,9 @@ def run_kani_units(pid, names, tier, log):
                     u["reason"] = "tool limit: " + "; ".join(f[0][:120] for f in und_f[:3])
                 elif prop_f or builtin_f:
                     u["status"] = "fail"
-                    u["failed"] = [dict(msg=f[0], loc=f[1]) for f in (prop_f + builtin_f)]
+                    u["failed"] = [dict(msg=f[0], loc=f[1], oid=f[0].split(":")[0].strip()) for f in prop_f] + \
+                                  [dict(msg="%s.%s.panic_free: %s" % (h["prop"], h["name"], f[0]), loc=f[1],
+                                        oid="%s.%s.panic_free" % (h["prop"], h["name"])) for f in builtin_f]
                 else:
                     u["status"] = "undecided"
                     u["reason"] = "failed without a classified check: " + r["raw"][-400:]
@@ -160,6 +164,26 @@ def check_property(pid, tier, seed):
     undecided += vund
     cmds += vcmds
 
+    # a unit may carry obligations of several properties: this check decides only its own
+    # (ids prefixed by the property id; for C04 every `.safety` / `.panic_free` obligation)
+    def mine(oid):
+        if pid == "C04":
+            return oid.endswith(".safety") or oid.endswith(".panic_free") or oid.startswith("C04.")
+        return oid.startswith(pid + ".")
+    for u in units:
+        u["obligations"] = [o for o in u["obligations"] if mine(o["id"])]
+        if u["status"] == "fail":
+            for f in u["failed"]:
+                f.setdefault("oid", f["msg"].split(":")[0].strip())
+            other = [f for f in u["failed"] if not mine(f["oid"])]
+            u["failed"] = [f for f in u["failed"] if mine(f["oid"])]
+            if other:
+                u["other_property_failures"] = [f["oid"] for f in other]
+            if not u["failed"]:
+                u["status"] = "ok"
+                # obligations after a failed Kani assert are only checked under its assumption
+                u["note"] = "obligations of another property failed in this unit: %s" % ", ".join(f["oid"] for f in other)
+
     # decide
     findings, _fixed = C.known_findings()
     known = {(f["property"], f["obligation"]): f for f in findings}
@@ -169,7 +193,7 @@ def check_property(pid, tier, seed):
             continue
         new_f = []
         for f in u["failed"]:
-            oid = f["msg"].split(":")[0].strip()
+            oid = f["oid"]
             if (pid, oid) in known:
                 known_hits.append((oid, known[(pid, oid)]["text"]))
             else:
@@ -188,7 +212,7 @@ def check_property(pid, tier, seed):
         path = write_replay(pid, u["unit"], info)
         suffix = "" if info.get("confirmed_on_real_code") else " no-failing-input-found"
         vio_lines.append("VIOLATION property=%s replay=%s obligation=%s%s" % (
-            pid, path, fl[0]["msg"].split(":")[0].replace(" ", "_"), suffix))
+            pid, path, fl[0]["oid"], suffix))
 
     # evidence
     n_obl = sum(len(u["obligations"]) for u in units if not u.get("bounded"))
@@ -214,7 +238,7 @@ def check_property(pid, tier, seed):
                     cbmc_unreachable=u.get("cbmc_unreachable"), covers=u.get("covers"),
                     bounded=u.get("bounded") or None, reason=u.get("reason"),
                     obligations=[o["id"] for o in u["obligations"]],
-                    extraction=u.get("extraction")) for u in units],
+                    extraction=u.get("extraction"), note=u.get("note")) for u in units],
         functions_under_contract=sorted(set(f for u in units for f in u.get("functions", []))),
         frame_scans=scan_results,
         samples=samples[:40] or ["none"],
